@@ -58,8 +58,8 @@ def base(level):
     name = None if level == "1.1" else f"sc\u00e8ne-\u30c7\u30fc\u30bf-\u00e9t\u00e9-{os.getpid()}"
     prod = harness.Materialised(files, "local", name=name).__enter__()  # kept for the life of the process
     images = info["names"]["sar_imagery"]
-    ref = harness.flatten(harness.open_tree(prod.url, use_cache=False))
-    harness.open_tree(prod.url, use_cache=False, create_cache=True)
+    _, ref = harness.reference_open(prod.url, use_cache=False)
+    harness.reference_open(prod.url, "reference open with create_cache=True", use_cache=False, create_cache=True)
     docs = {}
     for image in images:
         p = c07.user_index_path(prod.url, image)
